@@ -134,16 +134,34 @@ static void hang(const char *why)
 
 static unsigned long poll_ctr;
 static int poll_rr;
+/* skew: a thread that reaches the designated observation point is parked for a random number of scheduling
+ * decisions with probability 1/3, so that threads drift apart around that point (e.g. GVT phase changes) */
+static unsigned skew_point = 0xffffffffU, skew_len = 0;
+static unsigned parked[VS_MAX];
+void vs_set_skew(unsigned point, unsigned len)
+{
+	skew_point = point;
+	skew_len = len;
+}
 static int pick_next(int me, int me_runnable)
 {
 	int cand[VS_MAX], n = 0;
 	/* threads blocked on an external condition (state 4) re-test it when they are resumed: poll them
 	 * regularly (round robin), and whenever nothing else can run */
 	int blocked[VS_MAX], nb = 0;
+	int unparked = 0;
+	for(int i = 0; i < n_thr; ++i)
+		if(thr[i].state == 1 && (i != me || me_runnable) && !parked[i])
+			++unparked;
 	for(int i = 0; i < n_thr; ++i) {
-		if(thr[i].state == 1 && (i != me || me_runnable))
+		if(thr[i].state == 1 && (i != me || me_runnable)) {
+			if(parked[i] && unparked) {
+				--parked[i];
+				continue;
+			}
+			parked[i] = 0;
 			cand[n++] = i;
-		else if(thr[i].state == 4 && i != me)
+		} else if(thr[i].state == 4 && i != me)
 			blocked[nb++] = i;
 	}
 	if(nb && (!n || (++poll_ctr % 16) == 0))
@@ -201,6 +219,13 @@ void vs_yield(unsigned point, unsigned long site)
 		return;
 
 	int do_switch;
+	if(skew_len && point == skew_point && (vs_rand() % 3) == 0) {
+		parked[me] = 1 + (unsigned)(vs_rand() % skew_len);
+		int nx = pick_next(me, 1);
+		if(nx >= 0 && nx != me)
+			hand_over(me, nx);
+		return;
+	}
 	if(script && script_pos < script_len) {
 		do_switch = 1;
 	} else if(policy == 1) {
